@@ -8,15 +8,15 @@ UNITS = {'P': dict(SSO, new_block=64, gen_defs=['VERIF_NEW_POOL=8']), 'X': dict(
          'XP': dict(wrap='wrap.cc', new_block=64, ir2c_flags=OPT, gen_defs=['VERIF_NEW_POOL=16']),
          'NP': dict(wrap='wrap.cc', new_block=64, ir2c_flags=OPT, gen_defs=['VERIF_NEW_POOL=16'], cxxflags=['-fno-inline'], extra_c=['alloc_noop.c'])}
 BOUNDS = ('format_data_string: data 0..2 bytes with symbolic mask / has_mask / flag, 2..5 bytes with has_mask and flag case-split (quick 0..2); '
-          'parse_data_string: arbitrary text of 0..1 bytes quick, 0..3 thorough (all 256 values, mask requested or not, flags 0); round trip format->parse: data 0 (1 thorough) bytes; '
+          'parse_data_string: arbitrary text of 0..1 bytes quick, 0..3 thorough (all 256 values, mask requested or not, flags 0); round trip format->parse through the real parser: data 0..1 (0..2 thorough) bytes; '
           'format_data: concrete (size, start address, flags, iovec cuts) cells with symbolic data bytes: sizes 0..20, start addresses 0, unaligned, up to/across 2^32, 0x1234... (64-bit), and up to 2^64, '
           'flags PRINT_ASCII / none / SKIP_SEPARATOR / COLLAPSE_ZERO_LINES / OFFSET_16/64_BITS, all 10 cut pairs for size 3, selected pairs otherwise')
 STUBS = ['vasprintf: engine/rt/stub_printf.h, EXACT for %02X, %0*lX and literals (hex digits nibble-wise)',
          'strtoull / strtod / strtof (h_dsparse.c): CONTRACT stubs - consume 0..strlen characters, return an arbitrary value (0 when nothing consumed, floats non-NaN); the reference parser uses the same values',
          'P unit: std::string::_M_create cut to a reported bound failure (strings <= 15 bytes), pool allocator, std::allocator<char> no-ops; XP unit: pool allocator only (heap strings up to 63 bytes)',
          'load_file (ALLOW_FILES) is never reached (flags == 0); Filesystem.cc is included only to link the native build']
-OUTSIDE = ['data longer than the cells (statement: 0..600 bytes); round trip parse(format(d)) beyond 1 byte: the parser is re-run on symbolic text, ~13 s per text character and > 10 GB at 1 byte with mask; it is covered '
-           'compositionally instead: format output decoded by an independent decoder (h_dsformat.c) + parser == reference parser on arbitrary text (h_dsparse.c)',
+OUTSIDE = ['data longer than the cells (statement: 0..600 bytes); round trip parse(format(d)) beyond 2 bytes (2 bytes: 713 s; 3 bytes with mask exceed the 15-byte string bound of the P encoding); longer data is covered '
+           'compositionally: format output decoded by an independent decoder (h_dsformat.c) + parser == reference parser on arbitrary text (h_dsparse.c)',
            'format_data with SYMBOLIC size / start address / iovec lengths: every loop bound derives from start + sum(iov_len), CBMC cannot fold it (no verdict in 300 s even for size 0); addresses and partitions are therefore cells, not quantified',
            'PRINT_FLOAT / PRINT_DOUBLE columns (%g formatting), USE_COLOR / diff against a previous buffer (decimal to_string in the escape sequence and data-dependent text positions), print_data (FILE*, isatty), ALLOW_FILES',
            'parse_data_string: the numeric value syntax itself (strtoull/strtod/strtof are contract stubs)',
